@@ -240,3 +240,127 @@ Definition shline_model (case : list (list N * list (list N))) : V :=
 Definition tty_model (case : bool * list N) : V := VB (tty_echo (fst case) (snd case)).
 
 Definition echo_model (case : bool * list N) : V := VB (echo_out (fst case) (snd case)).
+
+(* ------------------------------------------------------------------ _init_shell and subshell() *)
+(* util.wait_for_shell: send the probe until its answer shows up (first wait 0.2 s, then 3 s each) *)
+Definition PROBE : list N := [101;99;104;111;32;84;66;79;84;92;76;79;71;73;78]%N.        (* echo TBOT\LOGIN *)
+Definition PROBE_ANSWER : list N := [84;66;79;84;76;79;71;73;78]%N.                       (* TBOTLOGIN *)
+Definition SANITY : list N := [101;99;104;111;32;84;66;79;84;45;83;65;78;73;84;89;45;67;72;69;67;75]%N.   (* echo TBOT-SANITY-CHECK *)
+Definition SANITY_ANSWER : list N := [84;66;79;84;45;83;65;78;73;84;89;45;67;72;69;67;75;10]%N.          (* TBOT-SANITY-CHECK\n *)
+Definition EXIT_CMD : list N := [101;120;105;116]%N.                                        (* exit *)
+
+Inductive ires : Type :=
+| IOk
+| IUnclean (out : list N)             (* UncleanShellError *)
+| IErr (e : res unit)
+| IFuel.
+
+Definition line_nrb (s : list N) (sts : list stage) (c : chan) : res unit * chan * list stage :=
+  let (r, c') := sendline s false None (load (hd_stage sts) c) in (r, c', tl sts).
+
+Fixpoint wait_for_shell (fuel : nat) (tmo : Z) (sts : list stage) (c : chan) : ires * chan * list stage :=
+  match fuel with
+  | O => (IFuel, c, sts)
+  | S f =>
+      match line_nrb PROBE sts c with
+      | (Ret _, c1, sts1) =>
+          match expect [SLit PROBE_ANSWER] (Some tmo) c1 with
+          | (Ret _, c2) => (IOk, c2, sts1)
+          | (ETimeout, c2) => wait_for_shell f 3072%Z sts1 c2
+          | (e, c2) => (IErr (lift_err e), c2, sts1)
+          end
+      | (e, c1, sts1) => (IErr e, c1, sts1)
+      end
+  end.
+
+(* sendline(line); read_until_prompt()  for every configuration line *)
+Fixpoint config_lines (ls : list (list N)) (sts : list stage) (c : chan) : ires * chan * list stage :=
+  match ls with
+  | [] => (IOk, c, sts)
+  | l :: ls' =>
+      match line_nrb l sts c with
+      | (Ret _, c1, sts1) =>
+          match read_until_prompt None None c1 with
+          | (Ret _, c2) => config_lines ls' sts1 c2
+          | (e, c2) => (IErr (lift_err e), c2, sts1)
+          end
+      | (e, c1, sts1) => (IErr e, c1, sts1)
+      end
+  end.
+
+(* first_tmo: 0.2 s rounded to the clock's unit; bl: the class's black-list; ps1line: the PS1 command; cfg: the
+   remaining configuration lines of the class (they differ between Bash and Ash and contain the terminal size) *)
+Definition init_shell (fuel : nat) (first_tmo : Z) (bl : list N) (ps1line : list N) (cfg : list (list N))
+           (sts : list stage) (c : chan) : ires * chan * list stage :=
+  match wait_for_shell fuel first_tmo sts c with
+  | (IOk, c1, sts1) =>
+      let c2 := mkChan (io c1) (prompt c1) (deaths c1) (lgs c1) bl (slow c1) (ctx c1) (nextid c1) in
+      match line_nrb ps1line sts1 c2 with
+      | (Ret _, c3, sts3) =>
+          let c4 := with_prompt c3 (Some (SLit TBOT_PROMPT)) in
+          match read_until_prompt None None c4 with
+          | (Ret _, c5) =>
+              match config_lines cfg sts3 c5 with
+              | (IOk, c6, sts6) =>
+                  (* shell_sanity_check *)
+                  match sendline SANITY true None (load (hd_stage sts6) c6) with
+                  | (Ret _, c7) =>
+                      match read_until_prompt None None c7 with
+                      | (Ret out, c8) => (if list_N_eqb out SANITY_ANSWER then IOk else IUnclean out, c8, tl sts6)
+                      | (e, c8) => (IErr (lift_err e), c8, tl sts6)
+                      end
+                  | (e, c7) => (IErr e, c7, tl sts6)
+                  end
+              | r => r
+              end
+          | (e, c5) => (IErr (lift_err e), c5, sts3)
+          end
+      | (e, c3, sts3) => (IErr e, c3, sts3)
+      end
+  | r => r
+  end.
+
+(* subshell(): spawn the shell, initialise it, run the body, and in `finally` send exit and wait for the prompt *)
+Definition subshell_enter (fuel : nat) (first_tmo : Z) (bl ps1line : list N) (cfg : list (list N)) (spawn : list N)
+           (sts : list stage) (c : chan) : ires * chan * list stage :=
+  match line_nrb spawn sts c with
+  | (Ret _, c1, sts1) => init_shell fuel first_tmo bl ps1line cfg sts1 c1
+  | (e, c1, sts1) => (IErr e, c1, sts1)
+  end.
+
+Definition subshell_leave (sts : list stage) (c : chan) : ires * chan * list stage :=
+  match line_nrb EXIT_CMD sts c with
+  | (Ret _, c1, sts1) =>
+      match read_until_prompt None None c1 with
+      | (Ret _, c2) => (IOk, c2, sts1)
+      | (e, c2) => (IErr (lift_err e), c2, sts1)
+      end
+  | (e, c1, sts1) => (IErr e, c1, sts1)
+  end.
+
+(* the line that sets the prompt: PROMPT_COMMAND=''; PS1='TBOT-V''EJPVC1QUk9NUFQK$ ' *)
+Definition PS1_WORD : list N :=
+  [80; 83; 49; 61; 39]%N ++ firstn 6 TBOT_PROMPT ++ [39; 39]%N ++ skipn 6 TBOT_PROMPT ++ [39%N].
+
+
+Definition PS1_LINE : list N :=
+  [80;82;79;77;80;84;95;67;79;77;77;65;78;68;61;39;39;59;32]%N ++ PS1_WORD.   (* PROMPT_COMMAND='';  *)
+
+
+Definition V_ires (r : ires) : V :=
+  match r with
+  | IOk => VL [VN 0]
+  | IUnclean out => VL [VN 1; VB out]
+  | IErr e => VL [VN 2; V_res_unit e]
+  | IFuel => VL [VN 9]
+  end.
+
+(* case: black-list, PS1 line, configuration lines, stages; the machine connects and initialises its shell *)
+Definition init_model (case : list N * list N * list (list N) * list stage) : V :=
+  match case with
+  | (bl, ps1line, cfg, sts) =>
+      let c0 := load (hd_stage sts) (chan_init [] []) in
+      let '(r, c, _) := init_shell 50 205%Z bl ps1line cfg (tl sts) c0 in
+      VL [V_ires r; VN (now (io c)); VB (wr (io c)); VB (unread c);
+          VB (match prompt c with Some (SLit p) => p | _ => [] end)]
+  end.
